@@ -24,11 +24,13 @@ type world struct {
 	log  *spyLog
 	mark int
 	flag bool                     // set by a step with "setflag" (did it succeed?); steps with "ifflag" are skipped unless it is set
-	vers map[string]cose.Verifier // session mode: one verifier value per description, shared by all cases of the session
+	vers map[string]cose.Verifier // one verifier value per description (in a session: shared by all its cases)
 }
 
 func newWorld() *world {
-	return &world{objs: map[string]any{}, bufs: map[string][]byte{}, log: &spyLog{}}
+	// one verifier value per description for the lifetime of the world (a program that verifies twice under the same key uses the
+	// same Verifier, as an application would): whatever the library remembers per verifier between calls becomes observable
+	return &world{objs: map[string]any{}, bufs: map[string][]byte{}, log: &spyLog{}, vers: map[string]cose.Verifier{}}
 }
 
 func (w *world) newCalls() []any {
@@ -72,8 +74,57 @@ func (s *symSigner) Sign(rand io.Reader, content []byte) (ret []byte, err error)
 		return nil, nil
 	case "bytes+err":
 		return []byte{0xde, 0xad, 0xbe, 0xef}, errInjected
+	case "reenter":
+		// a key that uses the library itself before it looks at its input (a notary checking or producing other messages first):
+		// the input must still be what the library handed over
+		reenterLibrary()
 	}
 	return pseudoSig(s.name, content), nil
+}
+
+type quietSigner struct{ alg cose.Algorithm }
+
+func (q quietSigner) Algorithm() cose.Algorithm { return q.alg }
+func (q quietSigner) Sign(_ io.Reader, content []byte) ([]byte, error) {
+	return pseudoSig("quiet", content), nil
+}
+
+type quietVerifier struct{ alg cose.Algorithm }
+
+func (q quietVerifier) Algorithm() cose.Algorithm { return q.alg }
+func (q quietVerifier) Verify(content, sig []byte) error {
+	if string(sig) != string(pseudoSig("quiet", content)) {
+		return cose.ErrVerification
+	}
+	return nil
+}
+
+// reenterLibrary runs every signing and verifying entry point once on values of its own.
+func reenterLibrary() {
+	qs, qv := quietSigner{cose.AlgorithmES256}, quietVerifier{cose.AlgorithmES256}
+	hdr := func() cose.Headers {
+		return cose.Headers{Protected: cose.ProtectedHeader{cose.HeaderLabelAlgorithm: cose.AlgorithmES256, cose.HeaderLabelKeyID: []byte("another key identifier")},
+			Unprotected: cose.UnprotectedHeader{}}
+	}
+	if b, err := cose.Sign1(nil, qs, hdr(), []byte("a different payload, a little longer than usual"), []byte("other external data")); err == nil {
+		var m cose.Sign1Message
+		if m.UnmarshalCBOR(b) == nil {
+			_ = m.Verify([]byte("other external data"), qv)
+			cs := &cose.Countersignature{Headers: hdr()}
+			_ = cs.Sign(nil, qs, &m, nil)
+			_ = cs.Verify(qv, m, nil)
+			if z, err := cose.Countersign0(nil, qs, m, []byte("x")); err == nil {
+				_ = cose.VerifyCountersign0(qv, &m, []byte("x"), z)
+			}
+		}
+	}
+	sm := &cose.SignMessage{Headers: hdr(), Payload: []byte("yet another payload"),
+		Signatures: []*cose.Signature{{Headers: hdr()}, {Headers: hdr()}}}
+	if sm.Sign(nil, nil, qs, qs) == nil {
+		_ = sm.Verify(nil, qv, qv)
+		_, _ = sm.MarshalCBOR()
+	}
+	_, _ = cose.SignHashEnvelope(nil, qs, hdr(), cose.HashEnvelopePayload{HashAlgorithm: cose.AlgorithmSHA256, HashValue: make([]byte, 32)})
 }
 
 type symVerifier struct {
@@ -89,6 +140,9 @@ func (v *symVerifier) Algorithm() cose.Algorithm {
 }
 
 func (v *symVerifier) Verify(content, signature []byte) error {
+	if v.fault == "reenter" {
+		reenterLibrary()
+	}
 	valid := string(signature) == string(pseudoSig(v.name, content))
 	var err error
 	switch {
@@ -149,7 +203,7 @@ func (w *world) signerOf(x any) cose.Signer {
 	switch str(v["kind"]) {
 	case "sym":
 		return &symSigner{name: name, alg: alg, fault: str(v["fault"]), log: w.log}
-	case "builtin", "cosekey", "cryptosigner":
+	case "builtin", "cosekey", "cryptosigner", "faultykey":
 		keyName := str(v["key"])
 		if keyName == "" {
 			keyName = keyNameForAlg(int(alg), "a")
@@ -158,6 +212,13 @@ func (w *world) signerOf(x any) cose.Signer {
 		var inner cose.Signer
 		var err error
 		switch str(v["kind"]) {
+		case "faultykey":
+			// a built-in signer over a key (HSM, KMS, agent) that fails: it returns an error, or an empty signature without an error
+			inner, err = cose.NewSigner(alg, faultyKey{key, str(v["fault"])})
+			if err != nil {
+				fatal("signerOf %v: %v", v, err)
+			}
+			return &spySigner{name: name, alg: alg, inner: inner, fault: "", log: w.log}
 		case "builtin":
 			inner, err = cose.NewSigner(alg, key)
 		case "cryptosigner":
@@ -183,6 +244,24 @@ func (w *world) signerOf(x any) cose.Signer {
 	}
 	fatal("signerOf: unknown kind %v", v["kind"])
 	return nil
+}
+
+type faultyKey struct {
+	inner crypto.Signer
+	fault string
+}
+
+func (k faultyKey) Public() crypto.PublicKey { return k.inner.Public() }
+func (k faultyKey) Sign(rand io.Reader, digest []byte, opts crypto.SignerOpts) ([]byte, error) {
+	switch k.fault {
+	case "err":
+		return nil, errInjected
+	case "empty":
+		return []byte{}, nil
+	case "nil":
+		return nil, nil
+	}
+	return k.inner.Sign(rand, digest, opts)
 }
 
 // opaqueSigner hides the concrete key type (a crypto.Signer that is not *ecdsa.PrivateKey etc.)
@@ -798,7 +877,6 @@ func init() {
 	// keeps between calls); objects and buffers are dropped between cases.  Every case yields its own event.
 	execs["memflow-session"] = func(c J) J {
 		w := newWorld()
-		w.vers = map[string]cose.Verifier{}
 		evs := []any{}
 		for _, cc := range c["session"].([]any) {
 			sub := cc.(map[string]any)
